@@ -51,6 +51,8 @@ theorem nothing_after_close {r : Ring α} (hr : RingInv r) (ops1 ops2 : List (Op
     pulled (run r (ops1 ++ .close :: ops2)).2 = pulled (run r ops1).2 := by
   rw [run_results_eq hr, run_results_eq hr, Fifo.run_append, Fifo.pulled_append, Fifo.run_cons]
   have := Fifo.closed_run (Fifo.step (Fifo.run (abs r) ops1).1 Op.close).1 ops2 rfl h2
+  have e : ∀ q : Fifo.Fifo α, (Fifo.step q Op.close).2 = Res.done := fun _ => rfl
+  rw [e]
   simp only [Fifo.pulled, this.1, List.append_nil]
 
 /-- the ring never holds more than `size` items, in any reachable state -/
